@@ -50,6 +50,13 @@ def vis_fn(rng, name, i):
     return "\n".join(attrs + [" ".join(sig.split()) + " " + body])
 
 
+def gated(name, item_text):
+    """Truth entry of a visible fn: its name followed by its `#[cfg(..)]` attributes (spaces removed), in source order."""
+    import re
+    head = item_text.split(" fn ")[0]
+    return name + "".join("#" + g.replace(" ", "") for g in re.findall(r"#\[(cfg\((?:[^\[\]]|\[[^\]]*\])*\))\]", head))
+
+
 def gen_module(rng, cid, n_items=None):
     items = []
     truth = []
@@ -64,15 +71,17 @@ def gen_module(rng, cid, n_items=None):
                 # cfg-alternatives: two visible fns of the same name, one per configuration (each is a fn of the module, each gets
                 # its own - equally gated - method); adjacent or with other items in between
                 pair = ["#[cfg(any())]", "#[cfg(not(any()))]"] if rng.random() < 0.5 else ["#[cfg(all())]", "#[cfg(not(all()))]"]
-                items.append(pair[0] + "\n" + vis_fn(rng, name, i))
-                truth.append(name)
+                # (the gate is the first attribute, or follows docs / other attributes)
+                pre = [rng.choice(["", "", "/// docs first\n", "#[inline]\n", "#[allow(unused)] #[doc(hidden)]\n"]) for _ in range(2)]
+                items.append(pre[0] + pair[0] + "\n" + vis_fn(rng, name, i))
+                truth.append(gated(name, items[-1]))
                 if rng.random() < 0.4:
                     items.append(rng.choice(soup.MOD_ITEMS_OTHER))
-                items.append(pair[1] + "\n" + vis_fn(rng, name, i))
-                truth.append(name)
+                items.append(pre[1] + pair[1] + "\n" + vis_fn(rng, name, i))
+                truth.append(gated(name, items[-1]))
                 continue
             items.append(vis_fn(rng, name, i))
-            truth.append(name)
+            truth.append(gated(name, items[-1]))
         elif r < 0.4:
             items.append(rng.choice(["fn priv%d<D>(deps: &D) {}" % i, "async fn priv%d() {}" % i, "unsafe fn priv%d() {}" % i,
                                      "const fn priv%d() {}" % i, "extern \"C\" fn priv%d() {}" % i,
@@ -185,7 +194,9 @@ def method_names(rec):
             for m in tok.split_items(it[-1]["s"]):
                 mk = tok.item_kind(m)
                 if mk["kind"] == "fn":
-                    names.append(mk["name"])
+                    # a method is gated exactly like its fn: the name is followed by the mirrored cfg attributes, in order
+                    gates = ["#" + tok.render(a).replace(" ", "") for a in mk["attrs"] if tok.attr_path(a) in ("cfg", "cfg_attr")]
+                    names.append(mk["name"] + "".join(gates))
             return names
     return None
 
